@@ -534,6 +534,72 @@ fn body_graph(ch: &Ch) -> Run {
   run
 }
 
+/// Pre-release versions of one release, and the iteration order of the
+/// registry's version map (a HashMap): the selection must be the semver maximum
+/// whatever order the map hands the versions out in.
+fn body_prerelease(ch: &Ch) -> Run {
+  let mut run = Run::default();
+  const VS: [&str; 4] = ["1.0.0-beta.1", "1.0.0-beta.2", "1.0.0-beta.10", "1.0.0"];
+  const RQ: [&str; 5] = ["^1.0.0-beta.1", "1.0.0-beta.2", "*", ">=1.0.0-beta.2 <1.0.0", "^1"];
+  let versions: Vec<Version> = VS.iter().map(|v| Version::parse_standard(v).unwrap()).collect();
+  let registry: Vec<(Version, VState)> = versions
+    .iter()
+    .map(|v| {
+      let st = ch.shape("version_state", 3);
+      (v.clone(), VState { present: st > 0, yanked: st == 2, created: Created::None })
+    })
+    .collect();
+  let present: Vec<&(Version, VState)> = registry.iter().filter(|(_, s)| s.present).collect();
+  // the order in which the map iterates
+  let perm = ch.permutation("version_map_iteration_order", present.len(), false);
+  let wanted: Vec<Version> = perm.iter().map(|i| present[*i].0.clone()).collect();
+  let mut map: HashMap<Version, JsrPackageInfoVersion>;
+  let mut tries = 0;
+  loop {
+    map = present.iter().map(|(v, s)| (v.clone(), JsrPackageInfoVersion { created_at: None, yanked: s.yanked })).collect();
+    if map.keys().zip(wanted.iter()).all(|(a, b)| a == b) {
+      break;
+    }
+    tries += 1;
+    if tries > 1_000_000 {
+      panic!("harness: could not realise the requested iteration order");
+    }
+  }
+  let info = JsrPackageInfo { versions: map, latest: None };
+  let name = deno_semver::package::PackageName::from_str("@s/a");
+  let resolver = JsrVersionResolver::default();
+  let pr = resolver.get_for_package(&name, &info);
+  let none: HashSet<Version> = HashSet::new();
+  let mut outcome = vec![];
+  for r in RQ {
+    let req = PackageReq { name: name.clone(), version_req: deno_semver::VersionReq::parse_from_npm(r).unwrap() };
+    let want = reference(&registry, &req, &[], &none, false);
+    let got = pr.resolve_version(&req, std::iter::empty(), &none);
+    run.evals += 1;
+    let ok = match (&got, &want) {
+      (Ok(g), Expected::Version(v, y, _)) => g.version.to_string() == *v && y.is_none_or(|y| y == g.is_yanked),
+      (Err(_), Expected::NotFound { .. }) => true,
+      _ => false,
+    };
+    outcome.push(format!("{want:?}"));
+    if !ok {
+      run.violate(
+        "wrong-selection@prerelease-order",
+        format!("resolve_version(@s/a@{r}) = {:?}, the rule gives {want:?}", got.as_ref().map(|g| g.version.to_string()).map_err(|_| "not found")),
+        json!({"registry": registry.iter().map(|(v, s)| format!("{v}: {}", if !s.present { "absent" } else if s.yanked { "yanked" } else { "live" })).collect::<Vec<_>>(),
+          "version_map_iterates_in_this_order": wanted.iter().map(|v| v.to_string()).collect::<Vec<_>>(), "requirement": r}),
+      );
+    }
+  }
+  run.state_key = hash_of(&(format!("{registry:?}"), format!("{wanted:?}")));
+  run.nontrivial = present.len() >= 2;
+  run.outcome_key = hash_of(&outcome);
+  if ch.describe() {
+    run.sample = Some(json!({"registry": registry.iter().map(|(v, s)| format!("{v}: {s:?}")).collect::<Vec<_>>(), "order": wanted.iter().map(|v| v.to_string()).collect::<Vec<_>>()}));
+  }
+  run
+}
+
 pub fn prop(tier: Tier) -> Prop {
   let (n, with_at) = match tier {
     Tier::Quick => (3, true),
@@ -553,6 +619,12 @@ pub fn prop(tier: Tier) -> Prop {
         body: Box::new(body(n, with_at)),
         modes: vec![Mode::Full],
         what: "version selection function against the four-tier reference",
+      },
+      Part {
+        name: "prerelease-order",
+        body: Box::new(body_prerelease),
+        modes: vec![Mode::Full],
+        what: "three pre-releases of one release and the release itself (each absent / live / yanked) x 5 requirements x EVERY iteration order of the registry's version map (the harness builds the HashMap until it iterates in the chosen order): the selection is the semver maximum of the tier regardless of the order",
       },
       Part {
         name: "graph",
